@@ -741,9 +741,18 @@ func c01Check(rep *verifkit.Report, conf *vkConf, want c01Verdict, qname string,
 		modeRcode = dns.RcodeRefused
 	}
 	if qtype != dns.TypeA && qtype != dns.TypeAAAA {
-		// The statement does not fix the rcode for non-address types.
+		// The statement does not fix the rcode for non-address types (the
+		// program answers most of them with an empty NOERROR reply in every
+		// mode), except that HTTPS questions - the other way a client asks
+		// for a host's addresses - get the mode's answer like A and AAAA.
 		if len(resp.Answer) != 0 || (resp.Rcode != dns.RcodeSuccess && resp.Rcode != modeRcode) {
 			rep.Violate("blocked:non-address-answer", "blocked non-address query got a non-empty answer or an unexpected rcode", witness())
+		} else if qtype == dns.TypeHTTPS {
+			rep.Class("blocked_https_questions_mode_" + string(conf.Mode))
+			if resp.Rcode != modeRcode {
+				rep.Violate("blocked:wrong-synthetic-answer:https-question:"+string(conf.Mode),
+					fmt.Sprintf("blocked HTTPS question: rcode=%s, the blocking mode's rcode is %s", dns.RcodeToString[resp.Rcode], dns.RcodeToString[modeRcode]), witness())
+			}
 		}
 
 		return
